@@ -27,7 +27,7 @@ struct PVoucher {
     chan_ok: bool,
     tl_min: i64,
     tl_max: i64,
-    /// 0 none, 1 correct secret, 2 wrong secret
+    /// 0 none, 1 correct secret, 2 wrong secret, 3 pre-image set but empty secret supplied
     secret: u8,
     secret_len_ok: bool,
     /// 0 none, 1 succeeding call, 2 failing call
@@ -159,6 +159,8 @@ fn build_voucher(w: &World, pv: &PVoucher) -> UpdateChannelStateParams {
     } else {
         match pv.secret {
             2 => b"wrong".to_vec(),
+            3 => vec![],
+            0 if pv.lane % 2 == 0 => vec![],
             _ => SECRET.to_vec(),
         }
     };
@@ -271,7 +273,7 @@ fn gen_voucher(r: &mut Prng, s: &Snap, caller: u8, epoch: i64) -> PVoucher {
     let near = |r: &mut Prng| epoch + *r.pick(&[-1i64, 0, 1, 5]);
     let tl_min = if r.chance(80) { 0 } else { near(r) };
     let tl_max = if r.chance(80) { 0 } else { near(r).max(0) };
-    let secret = match r.below(100) { 0..=74 => 0, 75..=94 => 1, _ => 2 };
+    let secret = match r.below(100) { 0..=74 => 0, 75..=93 => 1, 94..=96 => 2, _ => 3 };
     let extra = match r.below(100) { 0..=84 => 0, 85..=93 => 1, _ => 2 };
     let msh = if r.chance(75) { 0 } else if s.settling_at != 0 && r.chance(50) { s.settling_at + r.range(-2, 2000) } else { epoch + r.range(0, 3000) };
     let mut merges = vec![];
@@ -347,7 +349,7 @@ fn monitor(w: &World, op: &POp, pre: &Snap, post: &Snap, code: u32, m: &mut Mon,
             if v.sig != other_sig { bad.push("voucher accepted without the counter-party's signature".into()); }
             if !v.chan_ok { bad.push("voucher for another channel accepted".into()); }
             if *epoch < v.tl_min || (v.tl_max != 0 && *epoch > v.tl_max) { bad.push("voucher accepted outside its time lock".into()); }
-            if v.secret == 2 { bad.push("voucher accepted with a wrong secret".into()); }
+            if v.secret >= 2 { bad.push("voucher accepted with a wrong secret".into()); }
             if v.extra == 2 { bad.push("voucher accepted although extra verification failed".into()); }
             if v.amount < 0 { bad.push("negative voucher accepted".into()); }
             if let Some((_, n)) = pre.lanes.get(&v.lane) { if v.nonce <= *n { bad.push("stale nonce accepted".into()); } }
